@@ -509,6 +509,31 @@ func (e *Engine) applyHavoc(h *havocSet, st *State) {
 	}
 }
 
+// havocField: one field of an object gets an arbitrary value
+func (e *Engine) havocField(st *State, b VTerm, field string) {
+	s, _ := structOf(b.Typ)
+	if s == nil {
+		return
+	}
+	for i := 0; i < s.NumFields(); i++ {
+		f := s.Field(i)
+		if f.Name() != field || !e.typeModelled(f.Type()) {
+			continue
+		}
+		key := "fld:" + b.T.String() + "." + f.Name()
+		switch vv := e.freshValue(f.Name(), f.Type(), st).(type) {
+		case VSlice:
+			st.memV[key] = vv
+		case VMap:
+			st.memV[key] = vv
+		case VStream:
+			st.mem[key] = vv.ID
+		case VTerm:
+			st.mem[key] = vv.T
+		}
+	}
+}
+
 func (e *Engine) havocFields(st *State, b VTerm) {
 	s, sname := structOf(b.Typ)
 	if s == nil {
